@@ -6,10 +6,12 @@
             filters     g debug messages only | n everything but fatal | e even message ids only
                         | x odd message ids only | l warning and above (LevelFilter) | y debug only
                         (CategoryFilter)
-            o any other handler | ( ... ) nested pipeline
+            o any other handler (also S) | N a null handler entry (TNull) | ( ... ) nested pipeline
      end  : fatal (qFatal after the messages, then abort) | kill (SIGKILL after the messages)
      msgs : - or comma separated <t><size>[*<count>], t in d w c i (qDebug qWarning qCritical qInfo)
-            or m (the type of message number i is "diwc"[i mod 4]); size = bytes of the message text;
+            or m (the type of message number i is "diwc"[i mod 4]) or z (an info message logged while the device
+            rejects writes, after a flush: the reject oracle of the model says the record is lost iff it is larger
+            than QFile's chunk); size = bytes of the message text;
             a record is the text plus a newline; ids count from 0, the fatal message gets the next id
      output, for every file sink in depth-first order, sinks separated by ';':
             record ids as ranges a-b joined by ',' ; X for a B sink (no file)
@@ -44,11 +46,22 @@ let parse_tree (s : string) : tree =
         | 'B' -> let i = !next in incr next; TSink (fresh (n_of_int i) false true)
         | '(' -> let l = items () in (if !pos < String.length s && s.[!pos] = ')' then incr pos); TPipe l
         | 'g' | 'n' | 'e' | 'x' | 'l' | 'y' -> TFilter (flt_of c)
+        | 'N' -> TNull
         | _ -> TOther) in
       it :: items () in
   TPipe (items ())
 let ty_of i = function 'd' -> Debug | 'w' -> Warning | 'c' -> Critical
   | 'm' -> (match i land 3 with 0 -> Debug | 1 -> Info | 2 -> Warning | _ -> Critical) | _ -> Info
+(* ids of the z messages: logged while the device rejects writes *)
+let fault_ids (s : string) : int list =
+  if s = "-" || s = "" then [] else
+  let raw = List.concat_map (fun it ->
+    let t = it.[0] in
+    let body = String.sub it 1 (String.length it - 1) in
+    match String.split_on_char '*' body with
+    | [_; cnt] -> List.init (int_of_string cnt) (fun _ -> t)
+    | _ -> [t]) (String.split_on_char ',' s) in
+  List.concat (List.mapi (fun i t -> if t = 'z' then [i] else []) raw)
 let parse_msgs (s : string) : (mtype * int) list =
   if s = "-" || s = "" then [] else
   let raw = List.concat_map (fun it ->
@@ -89,9 +102,13 @@ let () =
       let msgs = List.mapi (fun i (ty, sz) -> (ty, { rid = n_of_int i; rlen = n_of_int (sz + 1) })) (parse_msgs ms) in
       let k = List.length msgs in
       let fatal = { rid = n_of_int k; rlen = n_of_int (int_of_string fs + 1) } in
+      (* the harness flushes before a z message, so nothing is buffered: the rejected write loses the record iff it
+         goes straight to the device (block larger than QFile's 16 KiB chunk); a smaller one is only buffered *)
+      let zs = fault_ids ms in
+      let rej _ (r : rec0) = List.mem (int_of_n r.rid) zs && int_of_n r.rlen > 16384 in
       if mode = "oracle" then
-        print_endline (if prop_c11_b t msgs fatal (unshow files) then "1" else "0")
-      else if mode = "expected" then print_endline (show (expected_ids t msgs fatal))
-      else print_endline (show (if en = "kill" then run_src_kill t msgs else run_src_fatal t msgs fatal))
+        print_endline (if prop_c11_b rej t msgs fatal (unshow files) then "1" else "0")
+      else if mode = "expected" then print_endline (show (expected_ids rej t msgs fatal))
+      else print_endline (show (if en = "kill" then run_src_kill rej t msgs else run_src_fatal rej t msgs fatal))
     | _ -> print_endline "?"
   done with End_of_file -> ()
